@@ -31,13 +31,36 @@ def after_fault(e):
     return e.kind == 'reraise' or flow_no_baseonly(e)
 
 
+def always_leaves(stmts):
+    """every way through the statement list ends in return / raise (syntactic, conservative)"""
+    if not stmts:
+        return False
+    last = stmts[-1]
+    if isinstance(last, (ast.Return, ast.Raise)):
+        return True
+    if isinstance(last, ast.If):
+        return always_leaves(last.body) and always_leaves(last.orelse)
+    if isinstance(last, ast.Try) and not last.finalbody:
+        return (always_leaves(last.orelse) if last.orelse else always_leaves(last.body)) and all(always_leaves(h.body) for h in last.handlers)
+    if isinstance(last, ast.With):
+        return always_leaves(last.body)
+    return False
+
+
 def split_regions(func):
-    """{'server': stmts, 'parent': stmts} of a RemoteWorker method that branches on is_remote_side."""
-    for st in func.node.body:
-        if isinstance(st, ast.If) and norm(st.test) in ('self.is_remote_side', 'self._remote_side'):
-            return {'server': st.body, 'parent': st.orelse}
-        if isinstance(st, ast.If) and norm(st.test) in ('not self.is_remote_side', 'not self._remote_side'):
-            return {'server': st.orelse, 'parent': st.body}
+    """{'server': stmts, 'parent': stmts} of a RemoteWorker method that branches on is_remote_side - written with an else, or as a guard clause
+    whose branch always leaves the function (the rest of the body is then the other side)."""
+    body = func.node.body
+    for i, st in enumerate(body):
+        if not isinstance(st, ast.If):
+            continue
+        text, truth = canon(st.test)
+        if text not in ('self.is_remote_side', 'self._remote_side'):
+            continue
+        other = st.orelse
+        if not other and always_leaves(st.body):
+            other = body[i + 1:]
+        return {'server': st.body, 'parent': other} if truth else {'server': other, 'parent': st.body}
     return None
 
 
